@@ -25,7 +25,7 @@ def run(ctx):
     ctx.assume('thresholds never equal an attained best chi^2 (per point) and are finite and non-zero', 'every record has at least one fit (a best chi^2 exists)',
                'a zero-byte output file means no records')
     ctx.require_events('split:checked', 'metadata:checked')
-    ctx.require_regimes('call:positional-arguments:chi', 'call:positional-arguments:cpd', 'input:name-re-used-with-another-set-up', 'all-good', 'all-bad', 'mixed', 'criterion:chi', 'criterion:cpd', 'names:auto', 'names:explicit', 'input:file', 'input:list',
+    ctx.require_regimes('call:names-relative-to-the-current-directory', 'call:positional-arguments:chi', 'call:positional-arguments:cpd', 'input:name-re-used-with-another-set-up', 'all-good', 'all-bad', 'mixed', 'criterion:chi', 'criterion:cpd', 'names:auto', 'names:explicit', 'input:file', 'input:list',
                         'best:nan', 'best:inf', 'n_data=1', 'flag-4-points', 'nan-suffix', 'names:mixed', 'outputs:re-used-names', 'flags-changed-after-n_data-was-read', 'threshold:close-to-attained-value')
     d = ctx.newdir('c18')
     n_models, nb = 5, 8
@@ -155,6 +155,16 @@ def run(ctx):
             except Exception as exc:
                 ctx.raised(exc, 'filter_output:raised:%s' % type(exc).__name__, 'filter_output raised: %r' % (exc,), dict(wit, threshold=thr0))
                 continue
+        # every fifth call is made from inside the working directory with bare file names (as in the documentation's examples):
+        # input and output names relative to the current directory
+        bare = ic % 5 == 4
+        cwd0 = os.getcwd()
+        if bare:
+            os.chdir(d)
+            kw = {k_: os.path.basename(v_) for k_, v_ in kw.items()}
+            if form == 'file':
+                inp = os.path.basename(path)
+            ctx.regime('call:names-relative-to-the-current-directory')
         try:
             with effects.trace() as tr:
                 if ic % 2 == 0:
@@ -164,8 +174,10 @@ def run(ctx):
                     filter_output(*pos)
                     ctx.regime('call:positional-arguments:' + crit)
         except Exception as exc:
-            ctx.raised(exc, 'filter_output:raised:%s' % type(exc).__name__, 'filter_output raised: %r' % (exc,), wit)
+            os.chdir(cwd0)
+            ctx.raised(exc, 'filter_output:raised:%s' % type(exc).__name__, 'filter_output raised: %r' % (exc,), dict(wit, bare_names=bare))
             continue
+        os.chdir(cwd0)
         wrote = sorted(set(os.path.abspath(p) for p in tr.produced(under=d)))
         third = []
         for x in wrote:
